@@ -157,6 +157,7 @@ func init() {
 			}
 			return 2
 		},
+		ReplicaOrders:     true,
 		AltBinLastReplica: "vmon-go126",
 		Post:              c06Post,
 		Assumptions: []string{
@@ -233,6 +234,16 @@ func c06Static(c *core.Ctx) {
 				break
 			}
 		}
+		// the two archives of a case, and all cases of a run, draw their service dates from one small pool while
+		// their agencies sit in different zones: a cache keyed too coarsely returns the other feed's instants
+		pool := []sgen.Date{{Y: 2024, M: 3, D: 9}, {Y: 2024, M: 3, D: 10}, {Y: 2024, M: 3, D: 11}, {Y: 2024, M: 11, D: 3}, {Y: 2023, M: 7, D: 1}}
+		for k := range ms[i].CalDates {
+			ms[i].CalDates[k].Date = core.Pick(r, pool)
+		}
+		for k := range ms[i].Calendar {
+			ms[i].Calendar[k].Start, ms[i].Calendar[k].End = pool[4], pool[3]
+		}
+		ms[i].Agencies[0].TZ = sgen.Zones[(c.Index*2+i)%len(sgen.Zones)]
 		a := sgen.Tables(ms[i])
 		if r.Chance(1, 3) {
 			sgen.Corrupt(a, r, 1+r.Intn(3)) // determinism also holds for feeds with rejected rows
